@@ -33,6 +33,9 @@ def same(a, b):
 def main():
     args = sys.argv[1:]
     keep = None
+    checks_only = '--checks-only' in args
+    if checks_only:
+        args.remove('--checks-only')
     if '--keep' in args:
         i = args.index('--keep'); keep = args[i + 1]; del args[i:i + 2]
     d = os.path.abspath(args[0])
@@ -44,19 +47,20 @@ def main():
         subprocess.run(['rsync', '-a', '--exclude', '.git', '/repo/', scratch + '/'], check=True)
         env = {'LENTIL_SRC': scratch, 'PYTHONDONTWRITEBYTECODE': '1', 'PYTHONHASHSEED': '0'}
         shutil.copy(os.path.join(d, 'equiv.py'), os.path.join(scratch, '_equiv.py'))
-        rc0, o0 = run([PY, '-W', 'ignore', '_equiv.py'], scratch, env)
+        rc0, o0 = (0, '') if checks_only else run([PY, '-W', 'ignore', '_equiv.py'], scratch, env)
         rc, o = run(['patch', '-p1', '-s', '-i', os.path.join(d, 'patch.diff')], scratch)
         out['patch_rc'] = rc
         if rc != 0:
             out['patch_tail'] = o[-300:]; print(json.dumps(out)); return
-        rc, o = run([PY, '-m', 'pytest', '-q', '-x', '-p', 'no:cacheprovider'], scratch)
-        if rc != 0:
+        if not checks_only:
             rc, o = run([PY, '-m', 'pytest', '-q', '-x', '-p', 'no:cacheprovider'], scratch)
-        out['tests'] = o.strip().splitlines()[-1] if o.strip() else ''
-        out['tests_rc'] = rc
-        rc1, o1 = run([PY, '-W', 'ignore', '_equiv.py'], scratch, env)
-        out['equiv_rc'] = (rc0, rc1)
-        out['equiv_same'] = rc0 == 0 and rc1 == 0 and same(o0.strip(), o1.strip())
+            if rc != 0:
+                rc, o = run([PY, '-m', 'pytest', '-q', '-x', '-p', 'no:cacheprovider'], scratch)
+            out['tests'] = o.strip().splitlines()[-1] if o.strip() else ''
+            out['tests_rc'] = rc
+            rc1, o1 = run([PY, '-W', 'ignore', '_equiv.py'], scratch, env)
+            out['equiv_rc'] = (rc0, rc1)
+            out['equiv_same'] = rc0 == 0 and rc1 == 0 and same(o0.strip(), o1.strip())
         out['checks'] = {}
         for pid in pids:
             t0 = time.time()
@@ -69,8 +73,13 @@ def main():
             dst = os.path.join(VERIF, 'neutral', keep)
             os.makedirs(dst, exist_ok=True)
             for f in ('patch.diff', 'equiv.py'):
-                shutil.copy(os.path.join(d, f), os.path.join(dst, f))
-            meta.update({'confirmed': {'tests': out['tests'], 'equiv_same': out['equiv_same']}, 'check_results': out['checks'], 'alarm': out['alarm']})
+                if os.path.abspath(os.path.join(d, f)) != os.path.abspath(os.path.join(dst, f)):
+                    shutil.copy(os.path.join(d, f), os.path.join(dst, f))
+            if checks_only:      # further checks against an already confirmed change: merge
+                cr = dict(meta.get('check_results', {})); cr.update(out['checks'])
+                meta.update({'check_results': cr, 'alarm': sorted(p for p, v in cr.items() if v['rc'] != 0)})
+            else:
+                meta.update({'confirmed': {'tests': out['tests'], 'equiv_same': out['equiv_same']}, 'check_results': out['checks'], 'alarm': out['alarm']})
             json.dump(meta, open(os.path.join(dst, 'meta.json'), 'w'), indent=1)
         print(json.dumps(out))
     finally:
